@@ -429,14 +429,14 @@ def check(res, tier, replay=None):
             found = replay_x1(res, prep, replay)
         else:
             r = vcommon.rng("c06")
-            n1 = 700 if tier == "quick" else 20000
+            n1 = 12000 if tier == "quick" else 60000
             cases = x1_cases(r, res, n1)
             f1, ndis = run_x1(res, prep, cases)
             found = found or f1
             res.cov["x1_cases"] = n1
             # ---------------- X2: e2e views ----------------
             tables = emu_props.load_tables()
-            n2 = 220 if tier == "quick" else 5000
+            n2 = 4000 if tier == "quick" else 15000
             r2 = vcommon.rng("c06-e2e")
             ecases = []
             for i in range(n2):
